@@ -17,7 +17,7 @@ Fixpoint chunk_grow (fuel k : nat) (s : str) : list str :=
 Definition chunk_real (s : str) : list str := chunk_grow (length s) 0 s.
 
 (* the initial destination world: nothing open, nothing logged; [fw] = indices of failing writes *)
-Definition world (D : fs) (a : anc) (fw : list N) : dstate := mkD D a 0 None [] (mkX None fw 0).
+Definition world (D : fs) (a : anc) (fw : list N) : dstate := mkD D a 0 None [] (mkX None fw 0 []).
 
 Definition run_top (cfg : config) (S D : fs) (a : anc) (ans : list answer) (bits : list bool)
            (ex : list path) (ft : faults) : result :=
